@@ -133,6 +133,24 @@ class World:
 
             def changed(self, originally_changed):
                 I = w.obj[self.n]
+                # In a diamond an interface can be notified BEFORE one of
+                # its bases has recomputed: its __iro__ is then built from
+                # that base's old order, and is recomputed when the base
+                # notifies in turn.  The statement speaks of __iro__ as the
+                # bases define it; such a transitional order is not judged
+                # (names(all=True) walks __bases__, the other accessors
+                # follow __iro__: they differ exactly there).
+                seen = set()
+                todo = [I]
+                while todo:
+                    x = todo.pop()
+                    if id(x) in seen:
+                        continue
+                    seen.add(id(x))
+                    todo.extend(x.__bases__)
+                if {id(x) for x in I.__iro__} - {id(Interface)} != \
+                        seen - {id(Interface)}:
+                    return
                 first = None
                 for J in I.__iro__:
                     if 'a' in J.names():
